@@ -96,6 +96,11 @@ def run(ctx):
     from checks.c10 import load
 
     prog, S, M = load(ctx.repo)
+
+    from sa.xmlchemy_model import ALL_PARTS, mechanism_gate  # noqa: F401
+
+
+    mechanism_gate(ctx, M, ("attr",))
     T = Types(prog, M)
     prov = Prov(prog, M, T)
     ctx.level = "other"
